@@ -474,6 +474,31 @@ class Lowering:
                 cond = v if is_const(args[0], None) else ("call", args[0], (v,), ())
                 return ("comp", "gen", v, ((v, args[1], (cond,)),))
             return ("comp", "gen", self.norm_call(("call", args[0], (v,), ())), ((v, args[1], ()),))
+        def _rep(a):
+            return op(a) == "call" and a[1] == ("ext", "itertools.repeat") and len(a[2]) == 1 and not a[3]
+
+        if op(func) == "builtin" and fname == "zip" and len(args) >= 2 and not kws and not any(op(a) == "star" for a in args) and sum(1 for a in args if not _rep(a)) == 1:
+            # zip(xs, itertools.repeat(v))  ==  ((x, v) for x in xs)
+            v = ("bv", self.fresh(), "_zip")
+            src = next(a for a in args if not _rep(a))
+            return ("comp", "gen", ("tuple", tuple(a[2][0] if _rep(a) else v for a in args)), ((v, src, ()),))
+        if op(func) == "builtin" and fname == "map" and len(args) >= 3 and not kws and not any(op(a) == "star" for a in args) and sum(1 for a in args[1:] if not _rep(a)) == 1:
+            # map(f, xs, itertools.repeat(v))  ==  (f(x, v) for x in xs)
+            v = ("bv", self.fresh(), "_map")
+            src = next(a for a in args[1:] if not _rep(a))
+            return ("comp", "gen", self.norm_call(("call", args[0], tuple(a[2][0] if _rep(a) else v for a in args[1:]), ())), ((v, src, ()),))
+        if fname in ("operator.add", "operator.concat") and len(args) == 2 and not kws and not any(op(a) == "star" for a in args):
+            return ("bin", "+", args[0], args[1])
+        if fname == "itertools.chain.from_iterable" and len(args) == 1 and not kws and op(args[0]) == "comp" and args[0][1] in ("gen", "list") and op(args[0][2]) == "comp" and args[0][2][1] in ("gen", "list"):
+            # chain.from_iterable(inner(c) for c in cs) with inner(c) = (e for x in xs(c))  ==  (e for c in cs for x in xs(c))
+            outer, inner = args[0], args[0][2]
+            return ("comp", "gen", inner[2], tuple(outer[3]) + tuple(inner[3]))
+        if op(func) == "builtin" and fname == "dict" and len(args) == 1 and not kws and op(args[0]) == "comp" and args[0][1] in ("gen", "list") and op(args[0][2]) == "tuple" and len(args[0][2][1]) == 2 and not any(op(x) == "star" for x in args[0][2][1]):
+            # dict((k, v) for ...)  ==  {k: v for ...}
+            k_, v_ = args[0][2][1]
+            return ("comp", "dict", ("kv", k_, v_), args[0][3])
+        if op(func) == "builtin" and fname in ("list", "set") and len(args) == 1 and not kws and op(args[0]) == "comp" and args[0][1] == "gen":
+            return ("comp", fname, args[0][2], args[0][3])
         if op(func) == "builtin" and fname == "zip" and len(args) == 2 and not kws and op(args[0]) == "call" and args[0][1] == ("ext", "itertools.count") and len(args[0][2]) <= 1 and not args[0][3] and op(args[1]) != "star":
             # zip(itertools.count(k), xs) yields the pairs of enumerate(xs, start=k)
             return ("call", ("builtin", "enumerate"), (args[1],), (("start", args[0][2][0]),) if args[0][2] else ())
